@@ -301,6 +301,8 @@ func (fv *FnV) markCalled(st *State, cname string, pos token.Pos) {
 	}
 	flag := fmt.Sprintf("X|call%d", int(pos))
 	st.heap[flag] = "true"
+	// ... and the flag that says so for the current iteration of the loops around the call (reset at their heads)
+	st.heap[fmt.Sprintf("X|iter%d", int(pos))] = "true"
 	sc := shortCallee(cname)
 	for _, f := range fv.callFlags[sc] {
 		if f == flag {
@@ -982,6 +984,16 @@ func (fv *FnV) libAtCall(st *State, callee *ssa.Function, cc *ssa.CallCommon, po
 		}
 		for i, a := range cc.Args {
 			env.vars[fmt.Sprintf("arg%d", i)] = CVal{T: fv.term(fv.val(a)), S: fv.g.sortOf(a.Type()), Typ: a.Type()}
+		}
+		if sig := callee.Signature; sig.Variadic() && len(cc.Args) == sig.Params().Len() {
+			// the elements of the variadic slice the compiler built at this site: vararg0, vararg1, ...
+			if elems, ok := fv.varargElems(st, cc.Args[len(cc.Args)-1]); ok {
+				et := sig.Params().At(sig.Params().Len() - 1).Type().(*types.Slice).Elem()
+				for i, el := range elems {
+					env.vars[fmt.Sprintf("vararg%d", i)] = CVal{T: el, S: fv.g.sortOf(et), Typ: et}
+				}
+				env.vars["varargs"] = CVal{T: bvLit(int64(len(elems)), 64), S: sBV64, Typ: types.Typ[types.Int]}
+			}
 		}
 		t, err := env.evalBool(cl.Text)
 		if err != nil {
